@@ -7,6 +7,7 @@ package main
 import (
 	"encoding/json"
 	"fmt"
+	"io"
 	"os"
 	"path/filepath"
 	"regexp"
@@ -387,14 +388,50 @@ func goFuncWriteAPI(ps *spec.Proc, t *sp.Task) {
 	c := vproto.Parse(toks)
 	key := c.Key()
 	vproto.Emit(&vproto.Event{Ev: "start", ID: c.ID, Key: key, Pid: os.Getpid(), Argv: toks, InProc: true})
+	if d, err := strconv.Atoi(c.Opts["sleep"]); err == nil && d > 0 {
+		time.Sleep(time.Duration(d) * time.Millisecond)
+	}
+	// The accessors of the documented API must agree with each other and with what the command line says.
+	mismatch := func(format string, a ...interface{}) {
+		t.Failf("Task / FileIP API mismatch in Go function of %s: %s", key, fmt.Sprintf(format, a...))
+	}
 	inShas := []vproto.KV{}
 	for _, kv := range c.Ins {
-		inShas = append(inShas, vproto.KV{K: kv.K, V: vproto.Sha(t.InIP(kv.K).Read())})
+		ip := t.InIP(kv.K)
+		data := ip.Read()
+		fh := ip.Open()
+		viaOpen, _ := io.ReadAll(fh)
+		fh.Close()
+		if string(viaOpen) != string(data) {
+			mismatch("InIP(%s).Open() and .Read() return different bytes", kv.K)
+		}
+		if fi, err := os.Stat(ip.Path()); err == nil && !fi.IsDir() && ip.Size() != int64(len(data)) {
+			mismatch("InIP(%s).Size() = %d, Read() returned %d bytes", kv.K, ip.Size(), len(data))
+		}
+		if t.InPath(kv.K) != ip.Path() {
+			mismatch("InPath(%s) = %q, InIP().Path() = %q", kv.K, t.InPath(kv.K), ip.Path())
+		}
+		if filepath.Clean(vproto.NormIn(kv.V)) != filepath.Clean(ip.Path()) && !filepath.IsAbs(ip.Path()) && !strings.Contains(ip.Path(), "..") {
+			mismatch("the command line names %q for in-port %s, InIP().Path() is %q", kv.V, kv.K, ip.Path())
+		}
+		inShas = append(inShas, vproto.KV{K: kv.K, V: vproto.Sha(data)})
+	}
+	for _, kv := range c.Params {
+		if t.Param(kv.K) != kv.V {
+			mismatch("Param(%s) = %q, the command line has %q", kv.K, t.Param(kv.K), kv.V)
+		}
+	}
+	size := 40
+	if n, err := strconv.Atoi(c.Opts["size"]); err == nil {
+		size = n
 	}
 	outs := map[string]string{}
 	// every out-port of the task, also those declared only through SetOut / SetOutFunc
 	for port := range t.OutIPs {
-		data := vproto.Content(c.ID, port, c.Params, c.Tags, inShas, nil, 40)
+		if t.OutPath(port) != t.OutIP(port).Path() {
+			mismatch("OutPath(%s) = %q, OutIP().Path() = %q", port, t.OutPath(port), t.OutIP(port).Path())
+		}
+		data := vproto.Content(c.ID, port, c.Params, c.Tags, inShas, nil, size)
 		t.OutIP(port).Write(data)
 		outs[port] = vproto.Sha(data)
 	}
